@@ -1,6 +1,7 @@
 """Shared driver for the properties decided on spec/Resources.tla (C11, C12, C17)."""
 import itertools
 import json
+import re
 
 from .. import common, replay, tla
 from ..adapters import resources as ra
@@ -118,13 +119,13 @@ def check_and_replay(res, name, c, ov, invariants, properties, own, probe, depth
         else:
             paths, what = replay.all_paths(g, depth_all), '%s:all-paths-depth-%d' % (name, depth_all)
         st = replay.run_paths(g, factory(shifts[-1] + 1), paths, own=own)
-        res.absorb(st, what, g)
+        res.absorb(st, '%s:kinds+%d' % (what, shifts[-1] + 1), g)
     if not st.n_violations and walks:
         # a phased instance spends a few steps building, then stays in the access phase
         weight = (lambda e: 4 if e[0] == 'Seal' else 1) if phased else None
         st = replay.run_paths(g, factory(shifts[-1] + 2), replay.random_walks(g, walks, walk_len, res.seed, weight=weight),
                               own=own)
-        res.absorb(st, name + ':random-walks', g)
+        res.absorb(st, '%s:random-walks:kinds+%d' % (name, shifts[-1] + 2), g)
     for s, labs, _t in replay.random_walks(g, 1, 12, res.seed + 1, weight=(lambda e: 4 if e[0] == 'Seal' else 1)):
         res.sample({'config': name, 'kind': str(dict(g.states[s]['kind'])), 'cls': str(dict(g.states[s]['cls'])),
                     'calls': ['%s%s' % (n, tla.to_json(a)) for n, a in labs]})
@@ -164,6 +165,8 @@ def replay_file(res, path, configs):
     with open(path) as f:
         blob = json.load(f)
     name = blob['summary'].split(':', 1)[0]
+    m = re.search(r':kinds\+(\d+)', blob['summary'])
+    shift = int(m.group(1)) if m else 0
     if name not in configs:
         raise common.MachineryError('replay file names unknown configuration %r' % name)
     c, ov, own, probe = configs[name]
@@ -172,11 +175,12 @@ def replay_file(res, path, configs):
     init = blob['detail'].get('init_state')
     start = next((i for i in g.init if tla.to_json(g.states[i]) == init), g.init[0])
     st = replay.Stats()
-    v = replay.walk(g, ra.ResourcesAdapter(desper, probe=probe, depth=int(c['MaxDepth'])), labels, own, st, start=start)
+    adapter = ra.ResourcesAdapter(desper, probe=probe, depth=int(c['MaxDepth']), kind_shift=shift)
+    v = replay.walk(g, adapter, labels, own, st, start=start)
     if v:
         st.violations.append(v)
         st.n_violations = 1
-    res.absorb(st, name + ':replay', g)
+    res.absorb(st, '%s:replay:kinds+%d' % (name, shift), g)
 
 
 def _untuple(a):
